@@ -39,7 +39,7 @@ META = {
     "technique": "TLA+ function spec (LibValid.tla), TLC-generated cases replayed into Library and the real binary, verdicts by TLC",
 }
 FULL = [-20, -15, -10, 0, 5, 10, 15, 20, 100]
-SMALL = [-10, 0, 15]
+SMALL = [-10, 0, 15, 20]
 
 
 def tlc_mode(mode, env, timeout=1800, xmx="4g"):
@@ -64,7 +64,7 @@ def counts(r, *names):
 def gen_params(tier, seed):
     rnd = random.Random(seed)
     if tier == "quick":
-        nsample, nshards, b2 = 600, 1, SMALL
+        nsample, nshards, b2 = 1500, 1, SMALL
     else:
         nsample, nshards, b2 = 20000, 8, FULL
     sample = [[rnd.randrange(1 << 20) for _ in range(rnd.choice((2, 3, 3)))] for _ in range(nsample)]
